@@ -116,6 +116,42 @@ impl C17 {
             return;
         }
         let all_plain = [lg.s1.mint_a, lg.s1.mint_b, lg.s2.mint_a, lg.s2.mint_b].iter().all(|m| is_plain(pre, m));
+        // the stated threshold, one unit tighter than what this route just realised, on a copy: whatever the program then
+        // does, the trader must not end up with less than a stated minimum / pay more than a stated maximum
+        if two_hop_ok && v_ix.data.len() >= 24 {
+            if let Some(post) = two_hop_post {
+                let in_acct = if lg.v2 { c.a("token_owner_account_input") } else if a.a_to_b_one { lg.sa1.owner_a } else { lg.sa1.owner_b };
+                let out_acct = if lg.v2 { c.a("token_owner_account_output") } else if a.a_to_b_two { lg.sa2.owner_b } else { lg.sa2.owner_a };
+                if in_acct != out_acct {
+                    let got = token_amount(post, &out_acct) as i128 - token_amount(pre, &out_acct) as i128;
+                    let paid = token_amount(pre, &in_acct) as i128 - token_amount(post, &in_acct) as i128;
+                    let tight: Option<u64> = if a.is_input { u64::try_from(got + 1).ok() } else { u64::try_from(paid - 1).ok() };
+                    if let Some(t) = tight {
+                        let mut ix2 = v_ix.clone();
+                        ix2.data[16..24].copy_from_slice(&t.to_le_bytes());
+                        let mut f = pre.clone();
+                        let r = run(&mut f, ix2);
+                        cov.probe("tight_threshold_forks");
+                        let got2 = token_amount(&f, &out_acct) as i128 - token_amount(pre, &out_acct) as i128;
+                        let paid2 = token_amount(pre, &in_acct) as i128 - token_amount(&f, &in_acct) as i128;
+                        if r.ok && a.is_input && got2 < t as i128 {
+                            out.push(viol("threshold_not_honoured", idx, format!("{} exact-in with minimum output {} succeeds but the trader receives {}", c.name(), t, got2)));
+                            return;
+                        }
+                        if r.ok && !a.is_input && paid2 > t as i128 {
+                            out.push(viol("threshold_not_honoured", idx, format!("{} exact-out with maximum input {} succeeds but the trader pays {}", c.name(), t, paid2)));
+                            return;
+                        }
+                    }
+                }
+            }
+        }
+        if !all_plain {
+            // with transfer-fee tokens the intermediate amount is charged once in a two-hop and twice in two single swaps:
+            // the equivalence is stated for the amounts the pools see and is checked on plain tokens only
+            cov.eval(format!("{}|transfer_fee_world|ok={}", c.name(), two_hop_ok));
+            return;
+        }
         // fork B: the two legs as single swaps
         let mut fb = pre.clone();
         let in_acct = if a.a_to_b_one { lg.sa1.owner_a } else { lg.sa1.owner_b };
